@@ -452,6 +452,7 @@ def revisit_program(rnd):
     s_body = [["yield", item(k)], ["with", ctx, inner]]
     if rnd.random() < 0.3:
         s_body.insert(0, ["with", ["actx", "early"], [["yield", ["leaf", ["none"]]]]])
+    deep = rnd.random() < 0.5
     reader = [["read", "sv0"], ["read", "at0"]]
     if rnd.random() < 0.6:
         reader = [["with", ["actx", "rd"], [["yield", item(1 - k)]] + reader]] + reader
@@ -462,6 +463,14 @@ def revisit_program(rnd):
     nodes = [{"style": "asynq", "ret": "return", "body": []} for _ in range(6)]
     # 5 = the task reached twice, 4 = the one that flushes by hand, 3 = the reader
     nodes[5]["body"] = s_body
+    if deep:
+        # the task reached twice does not wait for the item itself but for a child (or grandchild) that does: on
+        # the second visit it is STILL blocked, while something below it has become runnable
+        nodes.append({"style": "asynq", "ret": "return", "body": s_body})
+        nodes[5]["body"] = [["yield", ["leaf", ["call", st("c"), 6]]], ["yield", item(rnd.randrange(2))]]
+        if rnd.random() < 0.4:
+            nodes.append({"style": "asynq", "ret": "return", "body": nodes[6]["body"]})
+            nodes[6]["body"] = [["with", ["actx", "midctx"], [["yield", ["tuple", [["leaf", ["call", st("c"), 7]]]]]]]]
     nodes[4]["body"] = flusher
     nodes[3]["body"] = reader
     if mode == "two_parents":
